@@ -368,11 +368,17 @@ func c26Scan(codec string, data []byte) (s c26ScanResult) {
 			return // make([]BranchRepos, l) panics
 		}
 		for i := 0; i < l && len(r.b) > 0; i++ {
+			before := len(r.b)
 			if !str("string length") {
 				return
 			}
 			if codec == c26BranchesRepos && !str("bitmap length") {
 				return
+			}
+			if len(r.b) == before {
+				// a truncated varint at the end of the input reads as 0
+				// without being consumed: every further iteration is the same
+				break
 			}
 		}
 	case c26ReposMap:
@@ -397,6 +403,7 @@ func c26Scan(codec string, data []byte) (s c26ScanResult) {
 		// branches, so the scan can stop there
 		for i := 0; i < l && len(r.b) > 0; i++ {
 			r.uvarint()
+			// byt() always consumes or empties the input: the outer loop makes progress
 			r.byt()
 			if v == 2 {
 				r.uvarint()
@@ -405,8 +412,12 @@ func c26Scan(codec string, data []byte) (s c26ScanResult) {
 			s.declare("branches", lb, len(r.b))
 			s.add(lb)
 			for j := 0; j < lb && len(r.b) > 0; j++ {
+				before := len(r.b)
 				if !str("string length") || !str("string length") {
 					return
+				}
+				if len(r.b) == before {
+					break // truncated varint: no progress, see above
 				}
 			}
 			if lb < 0 {
@@ -861,6 +872,17 @@ func c26GenCase(rt *rapid.T) c26Case {
 		off := c26Pick(g, append(append([]int{}, e.counts...), e.lens...), "off")
 		k := g.Int(1, 12, "cont")
 		junk := bytes.Repeat([]byte{0xff}, k)
+		if c26Pct(g, 40, "tail") {
+			// incomplete varint at the very end (reads as 0, is never consumed),
+			// optionally behind a count that promises more elements
+			c.How = "varint-truncated-tail"
+			if c26Pct(g, 50, "morecount") {
+				old, _ := binary.Uvarint(data[e.counts[0]:])
+				data = c26ReplaceVarint(data, e.counts[0], old+uint64(g.Int(1, 6, "delta")))
+			}
+			data = append(data, bytes.Repeat([]byte{0x80}, k)...)
+			break
+		}
 		data = append(data[:off:off], append(junk, data[off:]...)...)
 	}
 	if len(data) > c26MaxGarbage {
@@ -1005,6 +1027,8 @@ func FuzzVerifC26Decode(f *testing.F) {
 		f.Add(byte(i), []byte{1})
 		f.Add(byte(i), []byte{2, 0xff, 0xff, 0xff, 0xff, 0xff, 0xff, 0xff, 0xff, 0xff, 0x01})
 		f.Add(byte(i), []byte{1, 0x80, 0x80, 0x80, 0x80, 0x80, 0x80, 0x80, 0x80, 0x80, 0x80, 0x80})
+		f.Add(byte(i), []byte{1, 0x80, 0x80, 0x80, 0x80, 0x80, 0x69, 0x80, 0x80, 0x80})
+		f.Add(byte(i), []byte{2, 3, 0, 0x80, 0x80})
 	}
 	f.Fuzz(func(t *testing.T, which byte, data []byte) {
 		if len(data) > c26MaxGarbage {
